@@ -50,7 +50,15 @@ func (fv *FuncVerifier) evalBuiltin(name string, call *ast.CallExpr, st *State) 
 		}
 		return []Term{n}
 	case "cap":
-		reject("cap() is not modelled at %s", fv.pos(call.Pos()))
+		// capacities are not tracked (slices are values): cap(x) is some integer >= len(x)
+		x := fv.eval(call.Args[0], st)
+		if x.Sort == nil || x.Sort.Kind != KSlice || fv.specMode > 0 || fv.termMode || fv.u.bv {
+			reject("cap() is not modelled at %s", fv.pos(call.Pos()))
+		}
+		c := fv.u.freshConst("cap", sortInt)
+		st.assume(mk(sortBool, "(and (>= %s %s) (<= %s 72057594037927936))", c.S, slLen(x).S, c.S))
+		fv.u.note("cap(x) is an arbitrary integer >= len(x) (capacities are not tracked)")
+		return []Term{c}
 	case "min", "max":
 		t := fv.typeOf(call)
 		acc := fv.evalTo(call.Args[0], t, st)
